@@ -109,7 +109,8 @@ def loadtxt(
         header = fname.readline()
         fname.seek(position)
     if isinstance(header, bytes):
-        header = header.decode("utf-8")
+        # `numpy.savetxt` writes binary streams as latin1.
+        header = header.decode("latin1")
 
     array = numpy.loadtxt(
         fname,
